@@ -644,7 +644,12 @@ func runBroadcast(t *testing.T, p bcastRun, d *directObs) {
 			Genesis: new(big.Int).SetUint64(p.Genesis), Cadence: config.Duration(time.Duration(p.CadenceMs) * time.Millisecond),
 			Jitter: config.Duration(time.Duration(p.JitterMs) * time.Millisecond), Duration: p.Blocks, EndPadding: p.Padding,
 		}
-		bb := chain.NewBlockBroadcaster(conf, p.MaxDelay, quiet, nil)
+		// every block carries one transaction naming the block it was mined in (a loader, as the transmit and log loaders
+		// of a real run add theirs): "identical hash and content for a given number" is judged on it
+		tagLoader := func(b *chain.Block) {
+			b.Transactions = append(b.Transactions, chain.Log{TxHash: Hash32("tag", int(b.Number.Uint64()%60000)), BlockNumber: new(big.Int).Set(b.Number), TriggerValue: b.Number.String()})
+		}
+		bb := chain.NewBlockBroadcaster(conf, p.MaxDelay, quiet, nil, tagLoader)
 		type node struct {
 			lst   *chain.Listener
 			trk   *chain.BlockHistoryTracker
@@ -707,6 +712,18 @@ func runBroadcast(t *testing.T, p bcastRun, d *directObs) {
 					d.violate("two listeners saw different hashes for one block number", map[string]any{"run": p, "block": num})
 				}
 				ref[num] = b.Hash
+				tagged := 0
+				for _, trx := range b.Transactions {
+					if lg, ok := trx.(chain.Log); ok {
+						tagged++
+						if lg.TriggerValue != b.Number.String() {
+							d.violate("a listener received a block whose content belongs to another block", map[string]any{"run": p, "listener": ni, "block": num, "content_of": lg.TriggerValue})
+						}
+					}
+				}
+				if tagged != 1 {
+					d.violate("a listener received a block without (or with several copies of) the transaction its loader put in", map[string]any{"run": p, "listener": ni, "block": num, "transactions": tagged})
+				}
 				if i > 0 && n.got[i-1].Number.Uint64() > num {
 					inOrder = false
 				}
